@@ -56,6 +56,18 @@ def run(ctx, model):
     _lines, _pend = [], []
     _c14.run_route_after(ctx, model, _lines, _pend, "C09",
                          [("10.0.0.1/bp/0", [(1, 0)]), ("10.0.0.1/bp/1/enet/10.11.12.13/bp/0", [(1, 1), (2, "10.11.12.13"), (1, 0)]), ("10.0.0.1", [])])
+    # the routes of drivers created AFTER another driver of this process has been opened against a Micro800 (whose open()
+    # takes the backplane hop off ITS route): a bare address still means backplane slot 0
+    try:
+        import logixgen as _lg
+        from props import logix as _lx
+        _p = _lg.gen_project(ctx.rng, n_templates=0, n_tags=2)
+        _p["micro800"] = True
+        _s = _lx.Session(model, _p)
+        _s.close()
+        _c14.run_route_after(ctx, model, _lines, _pend, "C09", [("10.0.0.1", [(1, 0)]), ("10.0.0.1/2", [(1, 2)])], auto=True, extra=False)
+    except ImportError:
+        pass
     _tr.flush(ctx, model, _lines, _pend)
     import pycomm3
     from pycomm3.cip import data_types as dt
